@@ -62,7 +62,8 @@ VARIABLES up,     \* connected links
           pend,   \* <<n,p>>: n has still to replay its table to the new peer p (handlePeerConnected)
           gone,   \* <<n,p>>: n has still to drop the routes learned from the lost peer p (handlePeerDisconnect)
           ctr, seen, tbl, net,
-          cfg,    \* [loc, hops]: per agent the exit routes it originates and its routing.max_hops; never changes
+          cfg,    \* [loc, hops, kind]: per agent the exit routes it originates and its routing.max_hops; per route id
+                  \* its kind ("c" CIDR, "d" domain, "f" forward); never changes
                   \* (a variable only so that recorded executions with different set-ups can be validated in one run)
           nann,   \* ghost: number of announcements of each agent
           proc,   \* ghost: <<n,o,seq>> passed n's seen check in the current seen-cache epoch
@@ -108,7 +109,8 @@ ReachFrom(S) == LET S2 == S \cup {q \in Agent : \E x \in S : {x, q} \in up} IN I
 Init ==
   /\ up \in InitUps /\ pend = {} /\ gone = {}
   /\ \E x \in Exits, h \in HopsSet :
-       /\ cfg = [loc |-> [a \in Agent |-> IF a \in x THEN RouteIds ELSE {}], hops |-> [a \in Agent |-> h]]
+       /\ cfg = [loc |-> [a \in Agent |-> IF a \in x THEN RouteIds ELSE {}], hops |-> [a \in Agent |-> h],
+                 kind |-> [r \in RouteIds |-> IF r = "r1" THEN "c" ELSE IF r = "r2" THEN "d" ELSE "f"]]
        /\ ctr = [a \in Agent |-> IF a \in x THEN Cardinality(RouteIds) ELSE 0]   \* AddLocal*Route bumps it once per route
   /\ seen = [a \in Agent |-> {}]
   /\ tbl = [a \in Agent |-> {}]
@@ -201,7 +203,8 @@ Cands(m) == {[o |-> m.o, r |-> x.r, nh |-> m.src, m |-> x.m + 1, path |-> m.path
 Store(T, m) ==
   IF m.dst \in SeqToSet(m.path) THEN T
   ELSE LET C == Cands(m)
-           best == {c \in C : \A d \in C : Key(d) = Key(c) => c.m <= d.m}
+           \* (only the presence route can occur several times in one announcement: a replay of several next hops)
+           best == {c \in C : c.r # "p" \/ \A d \in C : d.r = "p" => c.m <= d.m}
            acc == {c \in best : \A e \in T : Key(e) = Key(c) => Accept(c, e)}
        IN {e \in T : \A c \in acc : Key(c) # Key(e)} \cup acc
 
@@ -258,23 +261,32 @@ Connect(l) ==
 (* numbers.  Learned routes with next hop # p are replayed per original    *)
 (* announcement <<origin, sequence>>, UNDER THE ORIGIN'S SEQUENCE, path    *)
 (* <<n>> \o stored path, seen-by <<n>>, stored metrics.  The path is taken *)
-(* from the first of: the r1 (CIDR) entry, the best presence entry, the    *)
-(* r2 (forward), r3 (domain) entry.                                        *)
-Pri == <<"r1", "p", "r3", "r2">>
-PathSrc(E) == LET i == CHOOSE i \in 1..Len(Pri) : (\E e \in E : e.r = Pri[i]) /\ \A j \in 1..(i - 1) : \A e \in E : e.r # Pri[j]
-                  S == {e \in E : e.r = Pri[i]}
-              IN {e \in S : \A d \in S : e.m <= d.m}
+(* from the first of: a CIDR entry, the best presence entry, a forward     *)
+(* entry, a domain entry of the group.                                     *)
+KindOf(r) == IF r = "p" THEN "p" ELSE cfg.kind[r]
+KindPri == <<"c", "p", "f", "d">>
+\* candidates [path, ann] for the path of a replayed group
+PathSrc(E) == LET i == CHOOSE i \in 1..4 : (\E e \in E : KindOf(e.r) = KindPri[i])
+                                            /\ \A j \in 1..(i - 1) : \A e \in E : KindOf(e.r) # KindPri[j]
+                  S == {e \in E : KindOf(e.r) = KindPri[i]}
+                  B == IF KindPri[i] = "p" THEN {e \in S : \A d \in S : e.m <= d.m} ELSE S
+              IN {[path |-> e.path, ann |-> e.ann] : e \in B}
+\* the routes of a replayed group: every exit route entry, and of the presence entries (one per next hop) only the best
+ReplayRs(E) == {[r |-> e.r, m |-> e.m] : e \in {x \in E : x.r # "p" \/ \A d \in E : d.r = "p" => x.m <= d.m}}
 ReplayWith(n, p, own) ==
   /\ <<n, p>> \in pend /\ "DevReplayUsesOwnSequence" \notin Dev
   /\ IsChunking(own, Locals(n))
   /\ LET E == {e \in tbl[n] : e.nh # p}
          G == {<<e.o, e.seq>> : e \in E}
          Ents(g) == {e \in E : e.o = g[1] /\ e.seq = g[2]}
-     IN \E ch \in [G -> E] :
-          /\ \A g \in G : ch[g] \in PathSrc(Ents(g))
-          /\ net' = BagAdd(net, ChunkMsgs(n, p, ctr[n], own, nann[n]) \cup
-                            {[src |-> n, dst |-> p, o |-> g[1], seq |-> g[2], path |-> <<n>> \o ch[g].path, sb |-> <<n>>,
-                              rs |-> {[r |-> e.r, m |-> e.m] : e \in Ents(g)}, ann |-> ch[g].ann] : g \in G})
+         \* only groups whose best presence entries tie leave a choice (which of the equally long paths is sent)
+         Amb == {g \in G : Cardinality(PathSrc(Ents(g))) > 1}
+     IN \E amb \in [Amb -> UNION {PathSrc(Ents(g)) : g \in Amb}] :
+          /\ \A g \in Amb : amb[g] \in PathSrc(Ents(g))
+          /\ LET ch(g) == IF g \in Amb THEN amb[g] ELSE CHOOSE e \in PathSrc(Ents(g)) : TRUE
+             IN net' = BagAdd(net, ChunkMsgs(n, p, ctr[n], own, nann[n]) \cup
+                            {[src |-> n, dst |-> p, o |-> g[1], seq |-> g[2], path |-> <<n>> \o ch(g).path, sb |-> <<n>>,
+                              rs |-> ReplayRs(Ents(g)), ann |-> ch(g).ann] : g \in G})
           /\ last' = [act |-> "Replay", n |-> n, p |-> p]
   /\ ctr' = [ctr EXCEPT ![n] = @ + Len(own)]
   /\ pend' = pend \ {<<n, p>>}
@@ -288,12 +300,14 @@ DevReplay(n, p) ==
   /\ LET E == {e \in tbl[n] : e.nh # p}
          G == {e.o : e \in E} \cup (IF Locals(n) = {} THEN {} ELSE {n})
          Ents(g) == {e \in E : e.o = g}
-     IN /\ \E ord \in [G -> 1..Cardinality(G)], ch \in [G \ {n} -> E] :
+         Amb == {g \in G \ {n} : Cardinality(PathSrc(Ents(g))) > 1}
+     IN /\ \E ord \in [G -> 1..Cardinality(G)], amb \in [Amb -> UNION {PathSrc(Ents(g)) : g \in Amb}] :
              /\ \A g, h \in G : g # h => ord[g] # ord[h]
-             /\ \A g \in G \ {n} : ch[g] \in PathSrc(Ents(g))
-             /\ net' = BagAdd(net,
-                  {[src |-> n, dst |-> p, o |-> g, seq |-> ctr[n] + ord[g], path |-> <<n>> \o ch[g].path, sb |-> <<n>>,
-                    rs |-> {[r |-> e.r, m |-> e.m] : e \in Ents(g)}, ann |-> ch[g].ann] : g \in G \ {n}}
+             /\ \A g \in Amb : amb[g] \in PathSrc(Ents(g))
+             /\ LET ch(g) == IF g \in Amb THEN amb[g] ELSE CHOOSE e \in PathSrc(Ents(g)) : TRUE
+                IN net' = BagAdd(net,
+                  {[src |-> n, dst |-> p, o |-> g, seq |-> ctr[n] + ord[g], path |-> <<n>> \o ch(g).path, sb |-> <<n>>,
+                    rs |-> {[r |-> e.r, m |-> e.m] : e \in Ents(g)}, ann |-> ch(g).ann] : g \in G \ {n}}
                   \cup (IF n \in G THEN {[src |-> n, dst |-> p, o |-> n, seq |-> ctr[n] + ord[n], path |-> <<n>>,
                                            sb |-> <<n>>, rs |-> {[r |-> x, m |-> 0] : x \in Locals(n)}, ann |-> nann[n]]}
                         ELSE {}))
